@@ -17,7 +17,7 @@ extern "C" void h_setupRun() {
     mems[i].dtype_ = &dts[md];                                   /* invariant of a live modeMemory_t: dtype_ points to a dtype */
     k.arguments.a[i].modeMemory = any_bool() ? &mems[i] : (modeMemory_t*) 0;
     k.arguments.a[i].value.type = nondet_int();                  /* any primitive tag bits */
-    k.arguments.a[i].value.value.ptr = any_bool() ? (void*) &mems[i] : (void*) 0;
+    k.arguments.a[i].value.value.ptr = any_bool() ? (char*) &mems[i] : (char*) 0;
     k.arguments.a[i].ptrSize = nondet_ulong();
     k.metadata.arguments.a[i].isConst = any_bool();
     k.metadata.arguments.a[i].isPtr = any_bool();
